@@ -870,11 +870,25 @@ class C18(Prop):
             cmds.append(['diff', base])
             cmds.append(['leaves'])
             out.append(show(['tree', base] + cmds))
+            if r.random() < 0.5:
+                # same root, different shape: zero summaries against (partially) expanded zero subtrees
+                tz = g.tree(r.choice([2, 3, 4]), 0.4)
+                te = self.expand_zeros(g, tz)
+                out.append(show(['tree', tz, ['diff', te], ['graft', te], ['diff', self.expand_zeros(g, g.tree_write(tz))]]))
+                out.append(show(['tree', te, ['diff', tz], ['graft', tz]]))
             if r.random() < 0.3:
                 tr = g.tree(r.choice([2, 3, 5]), 0.3)
                 out.append(show(['tree', tr, ['leaves'], ['diff', g.tree_write(tr)], ['graft', g.tree_write(tr)],
                                  ['hist', r.randint(1, 40), g.tree_write(tr), tr]]))
         return out
+
+    def expand_zeros(self, g, tr):
+        if tr[0] == 'Z' and int(tr[1]) >= 1 and g.rng.random() < 0.8:
+            d = int(tr[1])
+            return ['P', self.expand_zeros(g, ['Z', d - 1]), self.expand_zeros(g, ['Z', d - 1])]
+        if tr[0] == 'P':
+            return ['P', self.expand_zeros(g, tr[1]), self.expand_zeros(g, tr[2])]
+        return tr
 
     def full(self, g, d):
         if d == 0:
@@ -1061,11 +1075,28 @@ class C19(HistProp):
         for _ in range(self.n(tier) // 3):
             t, v = self.tv(g, tier)
             out.append(show(['val', t, v]))
+        # mutations through held child views: the cost is the path from the root view down
+        for _ in range(self.n(tier) // 2):
+            t = nested_ty(g, g.rng.choice([1, 2, 2, 3]))
+            v = g.val(t, 12)
+            sg = StoreGen(g, t, v)
+            out.append(show(['store', t, v] + sg.history(g.rng.choice([6, 15, 30]))))
         return out
 
     def compare(self, case, py, mo, stats):
         out = []
         bump(stats, 'kinds', kind(case[1]))
+        if case[0] == 'store':
+            for i, op in enumerate(case[3:]):
+                p = '%d.' % i
+                if op[0] != 'mut' or (p + 'cost') not in py or mo.get(p + 'bound') in (None, '-'):
+                    continue
+                bump(stats, 'ops', 'child-mut:' + op[2][0])
+                if int(py[p + 'cost']) > int(mo[p + 'bound']):
+                    out.append(F('prop', 'hash operations after mutation through a child view exceed the path bound: op %d %s' % (i, show(op)),
+                                 py[p + 'cost'], mo[p + 'bound']))
+                    break
+            return out
         if case[0] == 'val':
             if py.get('p.cache') != '0/0/0':
                 out.append(F('prop', 'hashing repeated for second root / copy / view from hashed backing', py.get('p.cache'), '0/0/0'))
@@ -1197,6 +1228,18 @@ class C20(Prop):
                 ops.append(['read'])
             ops.append(['bytes'])
             out.append(show(['virt', t, v] + ops))
+        # tree level: the same tree served lazily, against the virtual-tree model
+        for _ in range(self.n(tier)):
+            tr = g.tree(r.choice([1, 2, 3, 4, 5]), r.choice([0.1, 0.3, 0.5]))
+            maxg = 1 << (g.tree_depth(tr) + 2)
+            cmds = []
+            for _ in range(r.choice([2, 4, 8])):
+                gi = r.choice([1, r.randint(1, maxg), r.randint(1, maxg), r.randint(1, 1 << 10)])
+                if r.random() < 0.5:
+                    cmds.append(['vget', gi])
+                else:
+                    cmds.append(['vset', gi, r.choice([0, 1]), g.tree(r.choice([0, 0, 1, 2]), 0.5), gi, max(gi >> 1, 1), gi * 2, r.randint(1, maxg)])
+            out.append(show(['tree', tr] + cmds))
         return out
 
     def nontrivial(self, c):
@@ -1204,6 +1247,22 @@ class C20(Prop):
 
     def compare(self, case, py, mo, stats):
         out = []
+        if case[0] == 'tree':
+            for i, c in enumerate(case[2:]):
+                p = '%d.' % i
+                bump(stats, 'ops', c[0])
+                for key in ('vget', 'vset', 'vprobes'):
+                    a, b = py.get(p + key), mo.get(p + key)
+                    if a is None and b is None:
+                        continue
+                    if key == 'vprobes' and mo.get(p + 'vset') == 'err':
+                        continue
+                    a = (a or '').replace('err:nav', 'err')
+                    if a.startswith('import-err'):
+                        out.append(F('prop', 'a virtual tree cannot be created', a, ''))
+                    elif a != b:
+                        out.append(F('prop', 'lazily served tree differs from the materialised semantics: %s %s' % (c[0], c[1]), a, b))
+            return out
         bump(stats, 'kinds', kind(case[1]))
         if 'p.import' in py and py['p.import'] != 'ok':
             return [F('prop', 'a virtual tree cannot be created', py['p.import'], 'ok')]
